@@ -204,9 +204,9 @@ class scrypt(  # type: ignore[misc]
 
         return dict(
             ident=IDENT_SCRYPT,
-            rounds=int(nstr[3:]),
-            block_size=int(bstr[2:]),
-            parallelism=int(pstr[2:]),
+            rounds=uh.parse_int(nstr[3:], param="ln", handler=cls),
+            block_size=uh.parse_int(bstr[2:], param="r", handler=cls),
+            parallelism=uh.parse_int(pstr[2:], param="p", handler=cls),
             salt=b64s_decode(salt.encode("ascii")),
             checksum=b64s_decode(digest.encode("ascii")) if digest else None,
         )
